@@ -187,12 +187,14 @@ func (a *Authenticator) performFSAuthenticationClient(ctx context.Context, negot
 	responseMsg := message.NewMessageForStream(a.stream)
 	if err := responseMsg.PutInt(ctx, clientResult); err != nil {
 		if root != nil {
+			_ = root.Remove(leafName) // the exchange is over: do not leave the directory behind
 			_ = root.Close()
 		}
 		return fmt.Errorf("failed to send client result: %w", err)
 	}
 	if err := responseMsg.FinishMessage(ctx); err != nil {
 		if root != nil {
+			_ = root.Remove(leafName) // the exchange is over: do not leave the directory behind
 			_ = root.Close()
 		}
 		return fmt.Errorf("failed to finish message: %w", err)
